@@ -50,6 +50,7 @@ package wkt
 
 //@ func splitOnComma(s, yield)
 //@   requires yield != nil
+//@   loop 1: invariant 0 <= at && at <= i && i <= len(s) && (sawComma ==> sawSpace) && (sawSpace ==> at <= start && start <= i)
 
 //@ func splitByRegexpYield(s, re, set, yield)
 //@   requires set != nil && yield != nil && re != nil
